@@ -44,7 +44,7 @@ def cases_for(pid, seed):
     if pid == 'C13':
         vs = scalar_vals(rng)[:12] + [2**192 + 5, 5, N - 1 - 2**192]
         cs = [{'kind': 'lessorequal', 'a': hx(a), 'b': hx(b)} for a in vs for b in vs[::2]] + [{'kind': 'equal', 'a': hx(a), 'b': hx(b)} for a in vs[:8] for b in vs[:8]]
-        return cs + [{'kind': 'cselect', 'a': hx(3), 'b': hx(N - 4), 'c': hx(9), 'u': u} for u in (0, 1, 2, 2**63, 2**64 - 1, 2**63 + 1, 2**32)]
+        return cs + [{'kind': 'cselect', 'a': hx(3), 'b': hx(N - 4), 'c': hx(9), 'u': u} for u in (0, 1, 2, 2**63, 2**64 - 1, 2**63 + 1, 2**32)] + [{'kind': 'cselect-nil'}]
     if pid == 'C14':
         Ri = pow(R, -1, N)
         vs = scalar_vals(rng) + [sp * Ri % N for sp in (1, 2**64, 2**128, 2**191)]
